@@ -255,7 +255,15 @@ def dump(module, path, **kwargs):
             if isinstance(path, io.TextIOBase):
                 return path.write(dumps(module, **kwargs))
             else:
-                return path.write(dumps(module, **kwargs).encode())
+                # Bytes, unless this is a text stream that is not an
+                # io.TextIOBase (the tempfile wrappers, a codecs stream
+                # writer, ...): those refuse bytes before writing anything.
+                s = dumps(module, **kwargs)
+                write = path.write
+                try:
+                    return write(s.encode())
+                except TypeError:
+                    return write(s)
         except AttributeError:
             # Not a path, not an already-opened file.
             raise TypeError(
